@@ -59,7 +59,9 @@ func (r *clusterRunner) scriptF() {
 					return st
 				}
 				r.stores = append(r.stores, s)
-				clients[name] = r.net.Client("proxy", s)
+				cl := r.net.Client("proxy", s)
+				cl.InProcess = c.InProcess
+				clients[name] = cl
 				hosts = append(hosts, name)
 			}
 			st.Shards = append(st.Shards, hosts)
@@ -187,6 +189,13 @@ func (r *clusterRunner) parF(clients [][]Op) {
 				case "bulk":
 					docs, metas := simenv.BuildBulk(op.Docs)
 					ctx, cancel := context.WithTimeout(context.Background(), consts.BulkTimeout)
+					if op.CtxMs > 0 {
+						cancel()
+						ctx, cancel = context.WithTimeout(context.Background(), time.Duration(op.CtxMs)*time.Millisecond)
+					} else if op.CtxMs < 0 {
+						cancel() // the client went away before the bulk was sent
+						r.res.Fired["bulk_with_finished_context"]++
+					}
 					// anything that went wrong anywhere while this bulk was under way excuses its failure (other
 					// clients' calls share the stores): lost requests/replies, a store that died or was unreachable
 					troubleBefore := r.trouble()
@@ -195,7 +204,7 @@ func (r *clusterRunner) parF(clients [][]Op) {
 					r.logf("c%d bulk#%d (%d docs) -> %v", ci, op.Bulk, len(op.Docs), err)
 					if err != nil {
 						// (a breaker that opened during earlier trouble stays open for its sleep window)
-						if r.healthy() && r.trouble() == troubleBefore && !strings.Contains(err.Error(), "circuit is open") {
+						if r.healthy() && r.trouble() == troubleBefore && !strings.Contains(err.Error(), "circuit is open") && ctx.Err() == nil && op.CtxMs == 0 {
 							r.violate("api_error", "StoreDocuments failed although every store is up and reachable: %v", err)
 							return
 						}
@@ -714,6 +723,12 @@ func genClusterC09(g *gen, c *ClusterCase) {
 	if g.r.Bool(0.5) {
 		c.ColdShards, c.ColdReplicas = g.r.Range(1, 2), g.r.Range(1, 2)
 	}
+	// a fifth of the cases: single mode (the store is called in process, no transport looks at the context)
+	// with requests whose context is finished before or while the bulk is sent
+	c.InProcess = g.r.Bool(0.2)
+	if c.InProcess {
+		c.HotShards, c.HotReplicas, c.ColdShards, c.ColdReplicas = 1, g.r.Range(1, 2), 0, 0
+	}
 	c.HotMode = "cold"
 	c.Knobs.FracSize = uint64(g.r.Range(900, 4000))
 	if g.r.Bool(0.4) {
@@ -755,7 +770,11 @@ func genClusterC09(g *gen, c *ClusterCase) {
 		for ci := 0; ci < g.r.Range(1, 3); ci++ {
 			var ops []Op
 			for i := 0; i < g.r.Range(2, 7); i++ {
-				ops = append(ops, g.bulk(g.bulkSize()))
+				b := g.bulk(g.bulkSize())
+				if c.InProcess && g.r.Bool(0.5) {
+					b.CtxMs = []int{-1, -1, 1, 5}[g.r.Intn(4)]
+				}
+				ops = append(ops, b)
 				if g.r.Bool(0.2) {
 					ops = append(ops, Op{Kind: "sleep", Ms: g.r.Range(1, 300)})
 				}
